@@ -244,6 +244,30 @@ def cli_task(task):
                 sh.bad("zone-cli", "zone:cli:from-zone:%s:%s" % (k, "t<0" if t < 0 else "t>=0"),
                        "dconv --from-zone %s %s -> %r, file says %s" % (name, civ(l), got, civ(t)),
                        dict(argv=argv, input=civ(l), expected=civ(t), observed=got), cls=c)
+    # a time of day alone lives on the --base date: its offset is the one at base date + time
+    hms_ = lambda s_: "%02d:%02d:%02d" % (s_ // 3600, s_ // 60 % 60, s_ % 60)
+    for (t, k) in ts[:: max(1, len(ts) // 6)]:
+        day = t // 86400
+        base = cal.Day(day + cal.ORD_UNIX).ymd()
+        for sod in sorted(set([0, 43200, 86399, t % 86400, (t % 86400 + 3600) % 86400, max(0, t % 86400 - 1)])):
+            u = day * 86400 + sod
+            off = z.offset(u)
+            if off is None or not (lo < u < hi):
+                continue
+            want = hms_((sod + off) % 86400)
+            argv = [str(bindir / "dconv"), "--base", base, "--zone", path, hms_(sod)]
+            r = run(argv, cpu=5, wall=60)
+            sh.procs += 1
+            if sh.check_san(r, "zone-cli", "zone:cli:time-only"):
+                continue
+            got = r.out.decode("latin-1").strip()
+            c = ("cli", "time-only--zone", "after-transition" if u >= t else "before-transition")
+            if got == want:
+                sh.ok("zone-cli", c)
+            else:
+                sh.bad("zone-cli", "zone:cli:time-only:%s" % c[2],
+                       "dconv --base %s --zone %s %s -> %r, at %s the file says offset %+d: %s" % (base, name, hms_(sod), got, civ(u), off, want),
+                       dict(argv=argv, expected=want, observed=got), cls=c)
     # dzone --next / --prev: adjacent table entries
     for i in idx[:4]:
         if i + 1 >= z.ntrans:
